@@ -26,7 +26,7 @@ def main():
     tier, scale = tier or "quick", scale or "1"
     glob = args[0] if args else "*"
     muts = json.load(open(os.path.join(V, "mutants", f"{pid}.json")))
-    os.makedirs(os.path.join(V, "out", "sensitivity"), exist_ok=True)
+    os.makedirs(os.path.join(V, "sensitivity"), exist_ok=True)
     rows = []
     for m in muts:
         if not fnmatch.fnmatchcase(m["name"], glob):
@@ -76,7 +76,7 @@ def main():
             sh("git", "-C", "/repo", "worktree", "remove", "--force", wt)
             sh("rm", "-rf", wt)
             sh("git", "-C", "/repo", "worktree", "prune")
-    with open(os.path.join(V, "out", "sensitivity", f"{pid}.jsonl"), "a") as f:
+    with open(os.path.join(V, "sensitivity", f"{pid}.jsonl"), "a") as f:
         for row in rows:
             f.write(json.dumps(row) + "\n")
     return 0 if all(r["result"] == "caught" for r in rows) else 1
